@@ -57,7 +57,10 @@ this prelude, on every run. What is *assumed* about Go here (the translator's se
   is outside); a method that returns a parameterless function literal returns the tuple of the variables the literal
   captures, and the literal's body is a definition of its own over the receiver and that tuple (closure conversion: a
   `regions` entry of kind `retlit`); `sync.Mutex` / `RWMutex` calls are no-ops (each translated function is one critical
-  section); in a map of maps the inner maps are reachable through the outer map only (`mapInner`, `mapDelIn`).
+  section); in a map of maps the inner maps are reachable through the outer map only (`mapInner`, `mapDelIn`);
+* in a target marked `dynRW` an `http.ResponseWriter` is a `DynRW`; `case T:` of a type switch over it, `T` an interface
+  of the package, asks whether its dynamic type has `T`'s methods (`dynHas`); `wrapper{v}`, a struct literal embedding
+  such an interface, is the wrapper's name and `v`; the package's `ResponseWriter` as a result is that pair or nil.
 -/
 namespace GoSSE.GoRT
 open GoSSE
@@ -259,6 +262,29 @@ def mapDelIn {κ ι ν : Type} [BEq κ] [BEq ι] (m : List (κ × List (ι × ν
 
 /-- an `http.ResponseWriter` of whatever dynamic type: an identity the translated code only hands on -/
 abbrev HttpRW := Nat
+
+/-- an `http.ResponseWriter` as a type switch over interfaces sees it: an identity, the methods its dynamic type has
+beyond `Header` / `Write` / `WriteHeader` (but for `Unwrap`), and what its `Unwrap()` returns if it has one (a writer
+whose `Unwrap()` returns nil is one that unwraps to a writer without further methods: a type switch sends both to its
+default clause) -/
+inductive DynRW where
+  | mk (id : Nat) (methods : List String) (inner : Option DynRW)
+
+instance : Inhabited DynRW := ⟨.mk 0 [] none⟩
+
+def DynRW.id : DynRW → Nat | .mk i _ _ => i
+def DynRW.methods : DynRW → List String | .mk _ m _ => m
+def DynRW.inner : DynRW → Option DynRW | .mk _ _ i => i
+
+/-- `case T:` of a type switch over a response writer, `T` an interface asking for the methods `ms` -/
+def dynHas (w : DynRW) (ms : List String) : Bool :=
+  ms.all fun m => if m == "Unwrap" then w.inner.isSome else w.methods.contains m
+
+/-- `v.Unwrap()` -/
+def dynUnwrap (w : DynRW) : GoM DynRW :=
+  match w.inner with
+  | some i => pure i
+  | none => throw (.panic "Unwrap() of a writer that has none")
 
 /-- `h[key]` on an `http.Header`: the values stored under exactly that key (no canonicalisation: a map index) -/
 def headerGet (h : List (Bytes × List Bytes)) (k : Bytes) : List Bytes :=
